@@ -18,6 +18,9 @@ def run(tier, seed, only=None):
     ctx = Ctx("C11", tier, seed)
     lists = C.QUICK_LISTS if tier == "quick" else C.thorough_lists(seed, limit=200)
     cfgs = [(pl, C.A_NONE) for pl in lists] + [(pl, ak) for pl in C.QUICK_LISTS if pl.name in ("OneVarying", "ObjMixed", "OneFixed") for ak in (C.A_ALL, C.A_EMPTY)]
+    # value type with trivial copy operations but its own move operations (only meaningful for reference assignment)
+    cfgs += [(C.PL("TrivialCopyOwnMove", C.P("u32"), C.P("objtm"), C.F("objtm")), C.A_NONE),
+             (C.PL("TrivialCopyOwnMoveVarying", C.COUNT8, C.V("objtm"), C.P("u8")), C.A_NONE)]
     corpus.run(ctx, "cv.props.c11", "rule", cfgs, extra={"gen": "gen_ref_tu"})
     ctx.floor("configurations", len(cfgs), 40)
     ctx.floor("obligations", ctx.obligations, 3000)
